@@ -1283,7 +1283,23 @@ def parse_txt(txt, xopts=None, **kwargs):
 
     if not txt:
         return []
-    tokens = tokenize(txt, uniquifier=uniquifier)
+
+    # tag bodies (ref, poem, gallery, ...) are parsed by nested calls; a template that includes
+    # itself through such a body would nest without bound: beyond this depth the body stays text
+    depth = (xopts.parse_depth or 0) + 1
+    if depth > MAX_NESTED_PARSES:
+        return [Token(type=Token.t_text, text=txt)]
+    xopts.parse_depth = depth
+    try:
+        return _parse_tokens(tokenize(txt, uniquifier=uniquifier), xopts)
+    finally:
+        xopts.parse_depth = depth - 1
+
+
+MAX_NESTED_PARSES = 40
+
+
+def _parse_tokens(tokens, xopts):
 
     td2 = TagParser()
     add_tag_2 = td2.add
